@@ -2471,7 +2471,9 @@ int32_t processFinished(ssl_t *ssl, flightEncode_t *msg)
             psTraceErrr("Error snapshotting HS hash flight\n");
             psTraceIntInfo("sslSnapshotHSHash%d\n", rc);
             clearFlightList(ssl);
-            return rc;
+            /* The caller only treats negative values as failure; returning
+               0 here made it go on with the flight list just freed. */
+            return (rc < 0) ? rc : MATRIXSSL_ERROR;
         }
 
 # ifdef ENABLE_SECURE_REHANDSHAKES
